@@ -66,3 +66,67 @@ Proof.
   - rewrite R1, B2R_Bopp. reflexivity.
   - rewrite (S1 (fin_notnan _ Fin)). unfold c. cbn. destruct s; reflexivity.
 Qed.
+
+(* ---- the standard model of binary64 arithmetic (no underflow, no overflow) ---- *)
+Definition u : R := / 2 * bpow radix2 (- prec + 1).        (* 2^-53 *)
+Definition tiny : R := bpow radix2 (-1022).
+Definition nounder (r : R) : Prop := r = 0 \/ tiny <= Rabs r.
+Definition noover (r : R) : Prop := Rabs (rnd r) < bpow radix2 emax.
+
+Lemma u_pos : 0 < u.
+Proof. unfold u. assert (0 < bpow radix2 (-prec+1)) by apply bpow_gt_0. lra. Qed.
+
+Lemma rnd_model r : nounder r -> exists d, Rabs d <= u /\ rnd r = r * (1 + d).
+Proof.
+  intros [->|H].
+  - exists 0. split; [rewrite Rabs_R0; generalize u_pos; lra|].
+    unfold rnd. rewrite round_0; [ring|]. apply valid_rnd_N.
+  - unfold rnd, u, SpecFloat.fexp, SpecFloat.emin.
+    apply (relative_error_N_FLT_ex radix2 (3 - emax - prec) prec Hprec (fun x => negb (Z.even x))).
+    exact H.
+Qed.
+Lemma rnd_exact r : generic_format radix2 fexp64 r -> rnd r = r.
+Proof. intros H. unfold rnd. apply round_generic; [apply valid_rnd_N|exact H]. Qed.
+
+Section Models.
+Variables x y z : F.
+Hypothesis Fx : is_finite x = true.
+Hypothesis Fy : is_finite y = true.
+
+Lemma add_correct : noover (B2R x + B2R y) ->
+  B2R (fadd x y) = rnd (B2R x + B2R y) /\ is_finite (fadd x y) = true.
+Proof.
+  intros Ho. generalize (Bplus_correct prec emax _ _ mode_NE x y Fx Fy).
+  unfold noover, rnd in Ho. rewrite (Rlt_bool_true _ _ Ho). intros (E & Fin & _). split; assumption.
+Qed.
+Lemma sub_correct : noover (B2R x - B2R y) ->
+  B2R (fsub x y) = rnd (B2R x - B2R y) /\ is_finite (fsub x y) = true.
+Proof.
+  intros Ho. generalize (Bminus_correct prec emax _ _ mode_NE x y Fx Fy).
+  unfold noover, rnd in Ho. rewrite (Rlt_bool_true _ _ Ho). intros (E & Fin & _). split; assumption.
+Qed.
+Lemma mul_correct : noover (B2R x * B2R y) ->
+  B2R (fmul x y) = rnd (B2R x * B2R y) /\ is_finite (fmul x y) = true.
+Proof.
+  intros Ho. generalize (Bmult_correct prec emax _ _ mode_NE x y).
+  unfold noover, rnd in Ho. rewrite (Rlt_bool_true _ _ Ho). intros (E & Fin & _).
+  split; [exact E|]. unfold fmul. rewrite Fin, Fx, Fy. reflexivity.
+Qed.
+Lemma div_correct : B2R y <> 0 -> noover (B2R x / B2R y) ->
+  B2R (fdiv x y) = rnd (B2R x / B2R y) /\ is_finite (fdiv x y) = true.
+Proof.
+  intros Hy Ho. generalize (Bdiv_correct prec emax _ _ mode_NE x y Hy).
+  unfold noover, rnd in Ho. rewrite (Rlt_bool_true _ _ Ho). intros (E & Fin & _).
+  split; [exact E|]. unfold fdiv. rewrite Fin. exact Fx.
+Qed.
+Hypothesis Fz : is_finite z = true.
+Lemma fma_correct : noover (B2R x * B2R y + B2R z) ->
+  B2R (ffma x y z) = rnd (B2R x * B2R y + B2R z) /\ is_finite (ffma x y z) = true.
+Proof.
+  intros Ho. generalize (Bfma_correct prec emax _ _ mode_NE x y z Fx Fy Fz). cbv zeta.
+  unfold noover, rnd in Ho. rewrite (Rlt_bool_true _ _ Ho). intros (E & Fin & _). split; assumption.
+Qed.
+End Models.
+
+Lemma neg_correct x : B2R (fneg x) = - B2R x /\ is_finite (fneg x) = is_finite x.
+Proof. unfold fneg. split; [apply B2R_Bopp|apply is_finite_Bopp]. Qed.
